@@ -11,6 +11,7 @@ import (
 	"github.com/uber/kraken/lib/store/memory"
 	"github.com/uber/kraken/lib/store/metadata"
 	"github.com/uber/kraken/utils/closers"
+	"github.com/uber/kraken/utils/verifhook"
 	"go.uber.org/zap"
 )
 
@@ -176,7 +177,9 @@ func (f *flusher) nextToFlush() (b *blob, ok bool) {
 
 func (f *flusher) flush(b *blob) {
 	key := b.key
+	verifhook.Point("tiered.flush.start", key)
 	defer func() {
+		verifhook.Point("tiered.flush.before_unban", key)
 		err := f.mem.UnbanEviction(key) // prevent leak
 		if err != nil {
 			f.log.With(
@@ -230,6 +233,7 @@ func (f *flusher) flushMetadatasAndUnmarkDirty(key string, b *blob) error {
 		dirtyMDSnapshot := b.dirtyMD
 		b.dirtyMD = make(map[string]struct{})
 		b.mu.Unlock()
+		verifhook.Point("tiered.flush.md_snapshot", key)
 
 		for mdSuffix := range dirtyMDSnapshot {
 			err := f.flushMetadata(key, mdSuffix)
@@ -242,6 +246,7 @@ func (f *flusher) flushMetadatasAndUnmarkDirty(key string, b *blob) error {
 				return fmt.Errorf("flush md: %w", err)
 			}
 		}
+		verifhook.Point("tiered.flush.md_flushed", key)
 
 		f.mu.Lock()
 		b.mu.Lock()
@@ -301,6 +306,7 @@ func (f *flusher) flushData(b *blob) error {
 		return fmt.Errorf("disk store create: %w", err)
 	}
 	defer closers.Close(diskF)
+	verifhook.Point("tiered.flush.created", key)
 	f.mu.Lock()
 	_, ok := f.blobs[b.key]
 	if !ok {
@@ -316,6 +322,7 @@ func (f *flusher) flushData(b *blob) error {
 		return nil
 	}
 	f.mu.Unlock()
+	verifhook.Point("tiered.flush.before_copy", key)
 	_, err = ioCopy(diskF, memF)
 	if errors.Is(err, memory.ErrEvicted) {
 		return nil
@@ -323,7 +330,9 @@ func (f *flusher) flushData(b *blob) error {
 	if err != nil {
 		return fmt.Errorf("io copy from mem file to disk file: %w", err)
 	}
+	verifhook.Point("tiered.flush.copied", key)
 	err = f.disk.MarkComplete(key)
+	verifhook.Point("tiered.flush.marked_complete", key)
 	if errors.Is(err, os.ErrNotExist) {
 		return nil
 	}
